@@ -612,17 +612,20 @@ static Type *func_params(Token **rest, Token *tok, Type *ty) {
     ty2 = declarator(&tok, tok, ty2);
 
     Token *name = ty2->name;
+    Token *name_pos = ty2->name_pos;
 
     if (ty2->kind == TY_ARRAY) {
       // "array of T" is converted to "pointer to T" only in the parameter
       // context. For example, *argv[] is converted to **argv by this.
       ty2 = pointer_to(ty2->base);
       ty2->name = name;
+      ty2->name_pos = name_pos;
     } else if (ty2->kind == TY_FUNC) {
       // Likewise, a function is converted to a pointer to a function
       // only in the parameter context.
       ty2 = pointer_to(ty2);
       ty2->name = name;
+      ty2->name_pos = name_pos;
     }
 
     cur = cur->next = copy_type(ty2);
